@@ -76,6 +76,34 @@ def _extra():
     add("shift16-other-forms", "short t[2];", "Y = 1; t[Y] <<= 1;", {"init_addr": {"t+1": 0x81, "t+3": 0x12}, "expect": {"t+1": 0x02, "t+3": 0x25}}, "t[Y] <<= 1")
     add("shift16-other-forms", "short t[2];", "t[1] >>= 1;", {"init_addr": {"t+1": 0x81, "t+3": 0x12}, "expect": {"t+1": 0x40, "t+3": 0x09}}, "t[1] >>= 1")
     add("shift16-other-forms", "char *p;", "p <<= 1;", {"init16": {"p": 0x1281}, "expect16": {"p": 0x2502}}, "p <<= 1")
+    # initialised tables in ROM (chars, shorts, addresses, strings), pointers walking over them, arrays longer than a few bytes
+    D = "const char a[] = {1, 2, 3}; const char b[] = {4, 5, 6}; const char *t[] = {a, b}; const short w[] = {0x1234, 0x5678, 0x9abc}; const char m[] = \"AB\"; unsigned char r, i, j; char *p; short s; unsigned char buf[40];"
+    for body, exp in (("i = 1; p = t[i]; r = p[1];", {"expect": {"r": 5}}), ("i = 1; j = 2; p = t[i]; r = p[j];", {"expect": {"r": 6}}), ("p = t[1]; r = p[2];", {"expect": {"r": 6}}),
+                      ("i = 2; s = w[i];", {"expect16": {"s": 0x9abc}}), ("Y = 2; s = w[Y];", {"expect16": {"s": 0x9abc}}), ("X = 1; s = w[X];", {"expect16": {"s": 0x5678}}), ("s = w[1];", {"expect16": {"s": 0x5678}}),
+                      ("i = 1; r = a[i] + b[i];", {"expect": {"r": 7}}), ("r = 0; for (i = 0; i != 3; i++) r += a[i];", {"expect": {"r": 6}}), ("r = 0; for (X = 0; X != 3; X++) r += b[X];", {"expect": {"r": 15}}),
+                      ("for (X = 0; X != 40; X++) buf[X] = X; r = buf[39] + buf[1];", {"expect": {"r": 40}}), ("for (i = 0; i != 40; i++) buf[i] = i; r = buf[39] + buf[1];", {"expect": {"r": 40}}),
+                      ("p = buf; for (Y = 0; Y != 40; Y++) p[Y] = 2; r = buf[39] + buf[0];", {"expect": {"r": 4}}), ("p = buf; p += 10; *p = 3; p++; *p = 4; r = buf[10] + buf[11];", {"expect": {"r": 7}}),
+                      ("p = m; r = 0; while (*p) { r++; p++; }", {"expect": {"r": 2}}), ("r = m[0]; if (m[1] == 'B') r++;", {"expect": {"r": 66}}), ("p = \"xyz\"; r = p[2];", {"expect": {"r": 122}}),
+                      ("i = 1; s = w[i] + 1;", {"expect16": {"s": 0x5679}}), ("r = 0; if (w[1] == 0x5678) r = 1;", {"expect": {"r": 1}}), ("X = 1; r = 0; if (w[X] > w[0]) r = 1;", {"expect": {"r": 1}})):
+        add("const-tables", D, body, exp, body)
+    # an operand indexed by the program's Y stays in flight while another element access of the same expression parks Y and loads it with its own subscript (known finding)
+    DY = "unsigned char a[4]; unsigned char b, c, r, q; char *p;"
+    for body, ini, exp in (("p = &c; Y = 2; r = a[Y] + *p; q = Y;", {"init": {"c": 5}, "init_addr": {"a+2": 40, "a+0": 1}}, {"r": 45, "q": 2}),
+                           ("p = &c; Y = 2; r = *p + a[Y]; q = Y;", {"init": {"c": 5}, "init_addr": {"a+2": 40, "a+0": 1}}, {"r": 45, "q": 2}),
+                           ("p = a; Y = 2; a[Y] = *p;", {"init_addr": {"a+0": 7}}, {"a+2": 7}), ("p = a; Y = 2; *p = a[Y];", {"init_addr": {"a+2": 7}}, {"a+0": 7}),
+                           ("p = a; Y = 1; r = p[Y] + p[2];", {"init_addr": {"a+1": 7, "a+2": 30}}, {"r": 37}), ("Y = 1; r = a[Y] + a[b];", {"init": {"b": 2}, "init_addr": {"a+1": 7, "a+2": 30}}, {"r": 37}),
+                           ("Y = 1; r = a[b] + a[Y];", {"init": {"b": 2}, "init_addr": {"a+1": 7, "a+2": 30}}, {"r": 37})):
+        add("y-operand-while-y-reloaded", DY, body, dict(ini, expect=exp), body)
+    # the same accesses one at a time, or with X: must pass
+    for body, ini, exp in (("p = &c; Y = 2; r = a[Y]; r += *p; q = Y;", {"init": {"c": 5}, "init_addr": {"a+2": 40}}, {"r": 45, "q": 2}), ("p = a; Y = 2; X = 1; a[X] = p[Y];", {"init_addr": {"a+2": 7}}, {"a+1": 7}),
+                           ("p = a; Y = 1; X = 2; r = p[Y] + a[X];", {"init_addr": {"a+1": 7, "a+2": 30}}, {"r": 37}), ("p = a; Y = 1; r = p[Y] + a[2];", {"init_addr": {"a+1": 7, "a+2": 30}}, {"r": 37})):
+        add("y-operand-alone", DY, body, dict(ini, expect=exp), body)
+    # generated programs (units/simgen.py, fixed seeds): mixed statements over every construct the generator knows
+    from . import simgen
+    for gname, seed0, n, feats in (("generated-basic", 1000, 40, set()), ("generated-arrays-calls", 9000, 40, {"arr", "arr2", "call", "tern", "idxexpr"}),
+                                   ("generated-16bit", 30000, 40, {"s16", "w16", "arr", "loops"}), ("generated-all", 40000, 60, {"arr", "arr2", "w16", "loops", "s16", "idxexpr", "call", "tern", "sw"})):
+        for decl, body, sim, note in simgen.programs(seed0, n, feats):
+            add(gname, decl, body, sim, note)
     # loops: for / while / do-while agree
     for n in (0, 1, 5, 200):
         tot = sum(range(n)) & 255
